@@ -901,8 +901,9 @@ def corpus_decks():
             'cls': CLASS_OF[MULTI[2][2][0]],
             'aux': [CLASS_OF[f_] for f_ in MULTI[2][2][1:]],
             'sides': MULTI[2][3], 'single': False, 'locus': None, 'pool': None}
-    out.append((deck([card(1, '', 8), body],
-                     [{'id': 1, 'lits': [-1], 'imp': 1}, skip]), []))
+    for args in ([], ['--skip-geomcomp'], ['--skip-compositions']):
+        out.append((deck([card(1, '', 8), dict(body)],
+                         [{'id': 1, 'lits': [-1], 'imp': 1}, skip]), args))
     # one-sheet cone (two TRIPOLI-4 parts) flagged, weird flag after a star
     cone = {'id': 6, 'flag': '+', 'text': 'kz 0 1 1', 'mcnp': 1,
             'cls': CLASS_OF[('CONEZ', (0.0, 0.0, 0.0, 45.0))],
@@ -1180,9 +1181,21 @@ def tie_split(res, rng, n):
                       found_input=False)
 
 
-class _FakeSurf:
-    def __init__(self, flag):
-        self.boundary_cond = flag
+def _mcnp_surface(flag):
+    '''A real SurfaceMCNP made by its public constructor (a plane; only the
+    boundary flag matters to the boundary-condition classes).'''
+    from t4_geom_convert.Kernel.Surface.SurfaceMCNP import SurfaceMCNP
+    from t4_geom_convert.Kernel.Surface.ESurfaceTypeMCNP import \
+        ESurfaceTypeMCNP as MS
+    return SurfaceMCNP(flag, MS.P, [1.0, 0.0, 0.0, 0.0], [])
+
+
+def _kind_of(entry):
+    '''The kind string of a CBoundCond-like value (class, namedtuple, ...).'''
+    kind = getattr(entry, 'typeOfBound', None)
+    if kind is None and isinstance(entry, (tuple, list)) and entry:
+        kind = entry[0]
+    return kind
 
 
 def impl_kinds(pairs, parts=None):
@@ -1192,12 +1205,12 @@ def impl_kinds(pairs, parts=None):
     dic = OrderedDict()
     for i, (k, f) in enumerate(pairs):
         npart = parts[i] if parts else 1
-        dic[k] = [(_FakeSurf(f), 1)] * npart
+        dic[k] = [(_mcnp_surface(f), 1) for _ in range(npart)]
     try:
         out = CConversionBoundaryCondition(dic).conversionBoundCond()
     except Exception as exc:      # pylint: disable=broad-except
         return ('err', EXC.get(type(exc).__name__, 'EOther'))
-    return ('ok', [(v.typeOfBound, k) for k, v in out.items()])
+    return ('ok', [(_kind_of(v), k) for k, v in out.items()])
 
 
 def tie_kinds(res, rng, n):
@@ -1292,11 +1305,19 @@ def tie_numbering(res, rng, n):
 # ---- run ---------------------------------------------------------------
 
 def args_for(rng):
+    '''An option set of main.conversion.  --skip-geomcomp and
+    --skip-compositions select other sections of the output: they must not
+    change the SURF lines or the BOUNDARY_CONDITION block (the model ignores
+    them; the oracle expects the block all the same).'''
     args = []
     if rng.random() < 0.45:
         args.append('--skip-deduplication')
     if rng.random() < 0.06:
         args.append('--skip-boundary-conditions')
+    if rng.random() < 0.22:
+        args.append('--skip-geomcomp')
+    if rng.random() < 0.15:
+        args.append('--skip-compositions')
     return args
 
 
@@ -1333,7 +1354,9 @@ def run(res, tier, seed, proofs_ok):
 
     # ---- 1. the decks that failed before the repair (fix: 540bd39) ----
     for kind in dict.fromkeys(k for _was, k in WITNESSES):
-        for args in ([], ['--skip-deduplication']):
+        for args in ([], ['--skip-deduplication'], ['--skip-geomcomp'],
+                     ['--skip-compositions', '--skip-geomcomp',
+                      '--skip-deduplication']):
             deck = witness(kind)
             conv, t4, _ = observe(deck, args)
             probs = oracle(deck, args, conv, t4, random.Random(1))
@@ -1381,6 +1404,8 @@ def run(res, tier, seed, proofs_ok):
                                     for x in c['lits']) for s in deck['surfs'])))
         res.count('impl:' + (conv.exc or 'ok'))
         res.count('dedup:' + str('--skip-deduplication' not in args))
+        res.count('options:' + (' '.join(sorted(a for a in args if a in (
+            '--skip-geomcomp', '--skip-compositions'))) or 'none'))
         walk = walk_order(deck)
         if walk:
             res.count('shape:implicit-walk-ascending:'
